@@ -36,13 +36,9 @@ CLAIMED = {
    note="The opening handshake is not executed (C18 n/a): the stream is put in StateActive through its unexported init, as the in-package tests do. Server role, UTF-8 validation on, sessions longer than 3/4 frames are outside the claim. The inductive read step of C07 complements the session bound.",
    ref="DESIGN.md §4 C06"),
  "C05": dict(
-   text="Single-thread part of the property, decided for all schedules within the bounds: 1-3 top-level Posts, each handler may Post again (nesting <= 2, <= 2/3 nested posts, symbolic choice), Post from inside an I/O completion callback dispatched in the same batch, then 3/4 poll cycles with arbitrary batches. Asserted: no Lock by the holder of the poller mutex (self-deadlock), every handler runs exactly once and in posting order, Pending() and Posted() equal the posts not yet run (+ I/O in flight) between cycles, the eventfd counter is > 0 after every Post (a blocked loop is woken), PollOne reports n>0 when it ran a handler.",
-   note="NOT covered (the engine executes one thread): interleavings of Post from other goroutines with the loop's dispatch/arm/disarm, and data-race freedom. The repaired code was additionally run under `go test -race` (io tests) but that is sampling, not part of this claim.",
-   ref="DESIGN.md §4 C05 (a)"),
- "C13": dict(
-   text="(a) NewIO (+NewTimer), Dial tcp/udp (resolve, socket, set-nonblock, options, connect with EINPROGRESS/select/SO_ERROR, getsockname), Listen + Accept, NewPacketConn, Open executed with EVERY environment call free to fail (descriptor allocation, epoll_ctl, setsockopt/bind/listen/connect/getsockname/fcntl, select) in any combination: on an error return the kernel model's open-descriptor set equals the one before the call; on success Close releases exactly the descriptors created. (b) Close, creation of another object that receives the same number (lowest-free allocation), Close again: the other object's descriptor is still open (file/conn, listener, packet conn, timer, IO). (c) in the reactor world, whenever an operation is in flight on an object in either direction, ioc.pending references the object's slot (all histories of k=3/4 starts/cancels/polls with both directions).",
-   note="Not applicable clauses (DESIGN §5): the garbage collector itself (only the reachability mechanism is checked), websocket Handshake/AsyncHandshake descriptors (net.Dial/tls/http), NewUDPPeer and NewMirroredBuffer (covered under C12/C11 when their packages run on the model).",
-   ref="DESIGN.md §4 C13"),
+   text="(a) On the loop thread: 1-3 top-level Posts, handlers that Post again (nesting <= 2), Post from inside an I/O completion callback of the same batch, then 3/4 poll cycles with arbitrary batches: no Lock by the holder of the poller mutex (self-deadlock), every handler exactly once and in posting order, Pending()/Posted() exact between cycles, eventfd counter > 0 after every Post, PollOne reports n>0 when it ran a handler. (b) From OTHER goroutines: 1/2 poster threads doing 2 Posts each run as logical threads concurrently with the loop thread's poll cycles; the engine explores every interleaving with <= 3/4 preemptive context switches taken at the mutex, eventfd and epoll operations: every Post returns, no deadlock, handlers run on the loop thread, exactly once, per-poster order kept; at the quiescent point after the posters finish Pending()/Posted() equal the posts not yet run and a still-queued handler is announced on the eventfd (no lost wake-up); with the loop kept running everything runs and the counters return to zero. (c) every load/store the code under test makes to shared memory during (b) is checked for happens-before ordering (vector clocks; edges from mutex unlock->lock, atomics on the same address, thread start/join): an unordered conflicting pair is reported as a data race.",
+   note="Sequential consistency; preemption only at synchronisation operations (complete for race-free code; races themselves are what (c) reports). Bounds: <= 2 posters x 2 posts, <= 3/4 preemptive switches, 2 concurrent poll cycles. A race has no native assertion to fail: its confirmation is that the recorded schedule replays natively (deterministic baton-passing scheduler in vf) up to the second access. Weak-memory effects and the AsyncHandshake use of Post (C18) are outside.",
+   ref="DESIGN.md §4 C05, §11.6"),
  "C04": dict(
    text="All histories of k=3/5 actions {ScheduleOnce, ScheduleRepeating with symbolic delays in [-5, 2^40] ns, Cancel, Close, cancel+re-arm, start a pipe read, poll cycle} over two sonic.Timers and a pipe on one IO, with 1/2 further nested actions taken from inside timer or pipe callbacks of the same poll batch (batches of <= 2/3 entries in any order), symbolic clock advances. Asserted at every callback entry: the schedule it belongs to is still the active one (never after Cancel/Close, at most once for ScheduleOnce), now >= schedule time + delay (never early), repeats >= one interval apart; scheduling while scheduled or on a closed timer fails and leaves the existing schedule intact; Scheduled() <=> a callback is due. Second harness: a due timer whose deadline has passed and whose entry is delivered runs exactly once in that cycle.",
    note="Scheduling a timer from inside its own callback is outside (whether a repeating timer holds a schedule during its callback is undefined); model clock is monotonic; timerfd semantics per vsys/vkernel (settime resets the expiration count, entries of a batch are fixed when epoll_wait returns).",
